@@ -20,6 +20,23 @@ CLAIMED = {
         note=COMMON_NOTE + " TTLs/intervals so large that SystemTime + Duration overflows are outside the model."),
 }
 
+CLAIMED["C01"] = dict(
+    text="Proof (Lean 4): for every multi-key history with non-decreasing timestamps, every store kind/configuration/cleanup schedule, every key with fixed limits in D and every window [t1,t2], "
+         "admitted quantity <= max_burst + (t2-t1)/E (C01_window_bound; credit form C01_window_bound_credit; idle corollary). Chain: concrete store -> abstract expiring map (C06) -> the key's cell (C05) -> ideal token bucket (simulation, BucketSim) -> potential-function bound on the bucket (BucketWindow). "
+         "The bit-precise limiter model is tied to the code by differential runs on boundary-dense histories; the O leg sums all O(n^2) windows on the real code.",
+    design="§5 C01", technique="Lean 4 proof: refinement chain to an ideal token bucket + potential-function induction; differential correspondence",
+    note=COMMON_NOTE + " Domain D as in the property (burst,count,period >= 1, E >= 1 ns, burst*E <= 2^60 ns, time 1970..2100). E is the value the code computes (parameter `ei`); that it is floor(period/count) is C18.")
+CLAIMED["C02"] = dict(
+    text="Proof (Lean 4): at every step of every history (any quantities incl. 0 and > burst), decision and remaining tokens of a fixed-limits key equal those of the ideal token bucket started full (C02_refines_bucket), on every store; corollaries read off the bucket: fresh / rested key admits up to burst, no starvation (finite wait <= B*E), denial only when the bucket is short. "
+         "The O leg compares the real code with an independent exact-integer bucket step by step.",
+    design="§5 C02", technique="Lean 4 refinement proof (simulation relation GCRA cell <-> token bucket, induction over histories); differential correspondence",
+    note=COMMON_NOTE + " Domain D as in C01.")
+CLAIMED["C05"] = dict(
+    text="Proof (Lean 4): for every multi-key history with non-decreasing timestamps (other keys' requests arbitrary, valid or not), every store and every key k, the responses for k equal those of k's own sub-history run alone on any store (C05_key_isolation), via projection of the abstract map onto k's cell. Keys are opaque strings compared for equality. "
+         "The M/O legs run interleaved vs solo histories on the real stores with thousands of keys (empty, NUL, Unicode, 64 KiB, one-byte differences) so growth, rehash and every cleanup trigger fire.",
+    design="§5 C05", technique="Lean 4 proof: projection/simulation onto a single-key cell, induction over histories; solo-vs-interleaved differential runs",
+    note=COMMON_NOTE + " Global monotonicity of timestamps is a hypothesis (without it a sweep triggered by another key is observable: that is C17's subject).")
+
 NOT_YET = "check under construction in this session (model + theorems + correspondence not yet registered)"
 
 def main():
